@@ -4,8 +4,8 @@ CONSTANTS MaxLen = 2
  Eols = {"LF","CRLF","CR"}
  Seed = 0
  Stride = 1
- LineOff = 1
- RecordedLineDev = 1
- Emit = TRUE
+ LineOff = 0
+ RecordedLineDev = 0
+ Emit = FALSE
 INVARIANTS SameButRecorded SameProbes
 CHECK_DEADLOCK FALSE
